@@ -64,7 +64,7 @@ fn acceptance_grid(rep: &Reporter) {
     let objs = [-3.0, 0.0, 1e-20, 1.0, 1.0 + 1e-9, 2.0, 50.0, f64::MAX, f64::INFINITY];
     // incl. temperatures the cooling schedule reaches late in a run (alpha = 0 gives exactly 0)
     let temps = [0.0, 1e-300, 1e-24, 1e-12, 1e-3, 0.1, 1.0, 10.0, 1e6, 1e12, 1e300];
-    let n = rep.tier.pick(5_000u64, 20_000u64);
+    let n = rep.tier.pick(5_000u64, 200_000u64);
     let band = ((2.0f64 / 1e-10).ln() / (2.0 * n as f64)).sqrt();
     rep.set("seeds_per_cell", json!(n));
     rep.set("hoeffding_band", json!(band));
@@ -138,7 +138,7 @@ fn cooling(rep: &Reporter) {
             st.insert(Temperature(t0));
             st.insert(Random::new(1));
             let mut want = t0;
-            let steps = rep.tier.pick(1200, 5000);
+            let steps = rep.tier.pick(1200, 50_000);
             for k in 0..steps {
                 let r = catch(|| comp.execute(&TagP, &mut st).map_err(|e| e.to_string()));
                 want *= alpha;
@@ -231,7 +231,7 @@ fn main() {
     rep.assume("candidate = top population (the perturbed copy), current = the one below, as in the SA template; frequency band for a false-alarm probability of 1e-10 per cell");
     acceptance_grid(&rep);
     cooling(&rep);
-    let cases: Vec<_> = templates::cases(rep.quick(), rep.seed, rep.tier.pick(4, 40)).into_iter().filter(|c| matches!(c.tmpl, Tmpl::SaReal | Tmpl::SaPerm)).collect();
+    let cases: Vec<_> = templates::cases(rep.quick(), rep.seed, rep.tier.pick(4, 400)).into_iter().filter(|c| matches!(c.tmpl, Tmpl::SaReal | Tmpl::SaPerm)).collect();
     let mut v = V { rep: &rep };
     for c in &cases {
         templates::dispatch(c, &mut v, &mut |_m, _e| {});
